@@ -24,11 +24,28 @@ func main() {
 					consnet.Scenario{Powers: []int64{2, 2, 3}, Byz: -1, Heights: 2},
 				)
 			}
-			scs := consnet.Product(cfgs, func(cfg consnet.Scenario) []consnet.Rule {
+			full := func(cfg consnet.Scenario) []consnet.Rule {
 				return consnet.BuildMenu(consnet.MenuOpts{N: len(cfg.Powers), Byz: cfg.Byz, Rounds: []int64{0, 1}, Heights: []int64{1},
 					Hold: true, Mute: !run.Quick(), Early: true, ByzBasic: true, ByzSplit: true, SplitAlt: []string{"nil", "alt"}, Lifo: !run.Quick()})
-			}, d)
-			return scs, "every compatible subset of <= d deviation rules (hold/mute/early-timeout/Byzantine silent, equivocating proposal, fresh proposal, split votes, future-round votes) over 4 real ConsensusState machines (one Byzantine, honest by default), each execution run to 2 committed heights under the fair default schedule; distinct = distinct (committed block per node and height, max round) outcomes",
+			}
+			var scs []*consnet.Scenario
+			if run.Quick() {
+				// quick: every single rule of the full menu, every pair of round-0 rules
+				small := func(cfg consnet.Scenario) []consnet.Rule {
+					return consnet.BuildMenu(consnet.MenuOpts{N: len(cfg.Powers), Byz: cfg.Byz, Rounds: []int64{0}, Heights: []int64{1},
+						Hold: true, Early: true, ByzBasic: true, ByzSplit: true, SplitAlt: []string{"nil", "alt"}})
+				}
+				seen := map[string]bool{}
+				for _, sc := range append(consnet.Product(cfgs, full, 1), consnet.Product(cfgs, small, 2)...) {
+					if k := sc.String(); !seen[k] {
+						seen[k] = true
+						scs = append(scs, sc)
+					}
+				}
+			} else {
+				scs = consnet.Product(cfgs, full, d)
+			}
+			return scs, "every compatible subset of <= d deviation rules (quick: all single rules naming rounds 0-1 and all pairs of round-0 rules; thorough: all subsets of size <= 3 of the full menu, budget-capped) (hold/mute/early-timeout/Byzantine silent, equivocating proposal, fresh proposal, split votes, future-round votes) over 4 real ConsensusState machines (one Byzantine, honest by default), each execution run to 2 committed heights under the fair default schedule; distinct = distinct (committed block per node and height, max round) outcomes",
 				map[string]interface{}{"deviation_bound": d, "validators": 4, "heights": 2, "rounds_named_by_rules": []int{0, 1}}
 		},
 		Budget: func(run *core.Run) time.Duration {
